@@ -17,7 +17,9 @@
      attach         attach_agent: the running instance accepted the remote; the pending envelope is forwarded
      attach_fail    attach_agent on an instance that no longer accepts attachments (stopping / finished, not yet removed):
                     the promise is dropped and the remote's incoming task ends - finding KS1
-     agent_read     the instance handles the next envelope (link / sync / command / unlink)
+     agent_read     the instance handles the next envelope (link / unlink: the runtime; sync / command: the lane sees it)
+     emit           the runtime passes the lane's next answer on: an event to the remotes linked NOW, a sync answer to its
+                    requester (which links it implicitly - after any unlink that overtook it)
      stop_begin     an instance begins to stop (inactivity, failure, plane stopping): links are closed, attachments refused
      stop_end       ... its task finishes
      reap           AgentStopped: Agents::remove_agent
@@ -323,7 +325,7 @@ AgentRead(i) ==
        /\ CASE m.op = "command" ->
                  /\ cur' = [cur EXCEPT ![i] = n]
                  /\ store' = IF Persist THEN [store EXCEPT ![u] = n] ELSE store
-                 /\ evq' = [evq EXCEPT ![i] = Append(@, n)]
+                 /\ evq' = [evq EXCEPT ![i] = Append(@, [t |-> "ev", r |-> 0, w |-> n])]
                  /\ lastAct' = [k |-> "agent_read", u |-> u, op |-> m.op,
                                 o |-> <<[k |-> "deliver", u |-> u, n |-> n, op |-> "command"]>>]
                  /\ UNCHANGED linked
@@ -333,13 +335,11 @@ AgentRead(i) ==
                                 o |-> IF Open(m.r) THEN <<Recv(m.r, "linked", u, "")>> ELSE <<>>]
                  /\ UNCHANGED <<cur, evq, store>>
             [] m.op = "sync" ->
-                 /\ linked' = [linked EXCEPT ![u] = @ \cup {m.r}]
+                 \* the lane sees the request; its answer (which links the remote implicitly) passes through the runtime later
+                 /\ evq' = [evq EXCEPT ![i] = Append(@, [t |-> "sync", r |-> m.r, w |-> cur[i]])]
                  /\ lastAct' = [k |-> "agent_read", u |-> u, op |-> m.op,
-                                o |-> <<[k |-> "deliver", u |-> u, n |-> n, op |-> "sync"]>> \o
-                                      (IF ~Open(m.r) THEN <<>> ELSE
-                                       (IF m.r \in linked[u] THEN <<>> ELSE <<Recv(m.r, "linked", u, "")>>) \o
-                                       <<Recv(m.r, "event", u, ToString(cur[i])), Recv(m.r, "synced", u, "")>>)]
-                 /\ UNCHANGED <<cur, evq, store>>
+                                o |-> <<[k |-> "deliver", u |-> u, n |-> n, op |-> "sync"]>>]
+                 /\ UNCHANGED <<cur, store, linked>>
             [] m.op = "unlink" ->
                  /\ linked' = [linked EXCEPT ![u] = @ \ {m.r}]
                  /\ lastAct' = [k |-> "agent_read", u |-> u, op |-> m.op,
@@ -355,9 +355,18 @@ Emit(i) ==
     /\ evq' = [evq EXCEPT ![i] = Tail(@)]
     /\ burst' = 0
     /\ LET u == i[1]
+           x == Head(evq[i])
            tg == SetToSeq({r \in linked[u] : Open(r)}) IN
-       lastAct' = [k |-> "emit", u |-> u, o |-> [j \in 1..Len(tg) |-> Recv(tg[j], "event", u, ToString(Head(evq[i])))]]
-    /\ UNCHANGED <<srv, rem, peerShut, wire, pend, cache, findq, resolving, chan, cnt, ist, imeta, att, inbox, linked, cur, store,
+       IF x.t = "ev" THEN
+            /\ lastAct' = [k |-> "emit", u |-> u, o |-> [j \in 1..Len(tg) |-> Recv(tg[j], "event", u, ToString(x.w))]]
+            /\ UNCHANGED linked
+       ELSE
+            /\ linked' = [linked EXCEPT ![u] = @ \cup {x.r}]
+            /\ lastAct' = [k |-> "emit", u |-> u,
+                           o |-> IF ~Open(x.r) THEN <<>> ELSE
+                                 (IF x.r \in linked[u] THEN <<>> ELSE <<Recv(x.r, "linked", u, "")>>) \o
+                                 <<Recv(x.r, "event", u, ToString(x.w)), Recv(x.r, "synced", u, "")>>]
+    /\ UNCHANGED <<srv, rem, peerShut, wire, pend, cache, findq, resolving, chan, cnt, ist, imeta, att, inbox, cur, store,
                    due, nohold, released, lost, ks, sent>>
 
 StopBegin(i) ==
